@@ -612,6 +612,10 @@ def gen_copy_case(rng):
     if rng.random() < 0.6:
         s.add("chunk %d" % rng.choice([1000, 4095, 4096, 4097, 65536]))
     files = [WATCH + "/inc/a.txt", WATCH + "/inc/deep/er/b.bin", WATCH + "/n"]
+    if rng.random() < 0.3:
+        # a source so deep that the directory part of its store path passes 255 bytes (NAME_MAX bounds a component,
+        # not a path): the clean-up of an abandoned copy must still remove every directory it made
+        files.append(WATCH + "/inc/" + "/".join("d%02d" % i + "x" * 20 for i in range(12)) + "/deep.c")
     for f in files:
         size = rng.choice([0, 1, 2, 4095, 4096, 4097, 70000, 12345])
         if size <= 2:
